@@ -115,7 +115,8 @@ func randBundle(r *Rng, ver bver.Version, n int) *bundle.Bundle {
 			b.PrimaryURL = mustURL([]string{"https://example.com/p#frag", "https://u:p@example.com/", "/relative", "", "https://example.com/p#", "mailto:x@example.com", "//{", "https://example.com/?\xff"}[r.Intn(8)])
 		case 6:
 			if ver == bver.VersionB1 {
-				b.ManifestURL = mustURL([]string{"https://example.com/m#frag", "https://u:p@example.com/m", "/relative.json", "", "https://example.com/m"}[r.Intn(5)])
+				b.ManifestURL = mustURL([]string{"https://example.com/m#frag", "https://u:p@example.com/m", "/relative.json", "", "https://example.com/m",
+					"https://example.com/app/../manifest.json", "https://example.com/./a/./m.json", "https://example.com/a/b/../../m"}[r.Intn(8)])
 			}
 		case 7:
 			if ver == bver.VersionB1 {
@@ -206,6 +207,10 @@ func addVariantSet(r *Rng, b *bundle.Bundle, mode int) {
 	if mode == 4 { // key outside the axes
 		add("xx;yy", []byte("bad"))
 	}
+	if mode == 5 && len(b.Exchanges) > 0 { // a key that differs from an axis value in letter case only: no match
+		e := b.Exchanges[len(b.Exchanges)-1]
+		e.Response.Header.Set("Variant-Key", strings.ToUpper(e.Response.Header.Get("Variant-Key")))
+	}
 }
 
 func genC03(r *Rng, tier string) []Case {
@@ -225,7 +230,7 @@ func genC03(r *Rng, tier string) []Case {
 		}
 		b := randBundle(r, ver, k)
 		if ver == bver.VersionB1 && r.Chance(1, 3) {
-			addVariantSet(r, b, []int{0, 0, 0, 1, 2, 3, 4}[r.Intn(7)])
+			addVariantSet(r, b, []int{0, 0, 0, 1, 2, 3, 4, 5}[r.Intn(8)])
 		}
 		if ver == bver.VersionB2 && r.Chance(1, 12) && k > 0 { // two resources for one URL: refused
 			b.Exchanges = append(b.Exchanges, b.Exchanges[0])
@@ -245,10 +250,10 @@ func genC03(r *Rng, tier string) []Case {
 		}()
 	}
 	// variants machinery directly
-	vstrs := []string{"Accept-Language;en;fr, Accept-Encoding;gzip;br", "A;x", "A;x;y;z", "A", "", "A;x, B", "A;1;2", "\"Quoted Name\";\"v 1\";v2", "A;x;x", "A;x,B;y;z,C;p;q;r",
+	vstrs := []string{"Accept-Language;en;EN;fr", "A;x;X", "Accept-Language;en;fr, Accept-Encoding;gzip;br", "A;x", "A;x;y;z", "A", "", "A;x, B", "A;1;2", "\"Quoted Name\";\"v 1\";v2", "A;x;x", "A;x,B;y;z,C;p;q;r",
 		"A;" + strings.Repeat("v;", 100) + "w, B;" + strings.Repeat("v;", 100) + "w", "A;*aGk=*"}
 	for _, v := range vstrs {
-		for _, key := range [][]string{{"en", "gzip"}, {"fr", "br"}, {"x"}, {"z"}, {}, {"x", "y"}, {"x", "z", "r"}, {"v 1"}, {"w", "w"}} {
+		for _, key := range [][]string{{"en", "gzip"}, {"fr", "br"}, {"x"}, {"z"}, {}, {"x", "y"}, {"x", "z", "r"}, {"v 1"}, {"w", "w"}, {"EN"}, {"En"}, {"X"}, {"EN", "GZIP"}} {
 			ks := []Sx{}
 			for _, k := range key {
 				ks = append(ks, B([]byte(k)))
@@ -307,6 +312,20 @@ func genC03(r *Rng, tier string) []Case {
 
 func genC04(r *Rng, tier string) []Case {
 	cs := []Case{}
+	// serializers must not touch their input: multi-valued headers stay multi-valued
+	for i := 0; i < 30; i++ {
+		b := randBundle(r, []bver.Version{bver.VersionB1, bver.VersionB2}[i%2], 1+r.Intn(3))
+		for _, e := range b.Exchanges {
+			if r.Bool() {
+				e.Response.Header["X-Multi"] = []string{"a", string(alnumBytes(r, 3)), "c"}
+			}
+			if r.Chance(1, 3) {
+				e.Response.Header.Add("Content-Encoding", "gzip")
+				e.Response.Header.Add("Content-Encoding", "mi-sha256-03")
+			}
+		}
+		cs = append(cs, Case{"bundle_write_keeps_input", []Sx{bundleInSx(b)}})
+	}
 	n := 150
 	if tier == "thorough" {
 		n = 4000
